@@ -130,7 +130,10 @@ structure Defects where
   /-- a room admitted to a connection is never removed from it: a member disabled later keeps being
       served (peer_outbound_service.rs:484-494, no revocation path). When the switch is on the model
       ignores whatever re-check / revocation the regenerated `Code` describes (the code before the
-      repair); when it is off the regenerated `Code` decides. -/
+      repair); when it is off the regenerated `Code` decides. FIXED in /repo (`process_inbound` now
+      re-checks `rooms_for_peer(key, now())` in front of every room request and drops the room from
+      `allowed_room` when the key is no longer a valid member): off in `asImplemented`; the switch is
+      kept so that the regression witness stays checkable. -/
   allowedNeverRevoked : Bool
   /-- on a room-definition event the room is admitted when the key merely *appears* in a user list
       (`Room::has_user`, room.rs:91-106), enabled or not. FIXED in /repo by 81b6434
@@ -139,8 +142,8 @@ structure Defects where
   hasUserCountsDisabled : Bool
 deriving DecidableEq, Repr
 
-def Defects.asImplemented : Defects := { allowedNeverRevoked := true, hasUserCountsDisabled := false }
-/-- the code before fix 81b6434 -/
+def Defects.asImplemented : Defects := { allowedNeverRevoked := false, hasUserCountsDisabled := false }
+/-- the code before fix 81b6434 and before the membership re-check -/
 def Defects.beforeFix : Defects := { allowedNeverRevoked := true, hasUserCountsDisabled := true }
 def Defects.none : Defects := { allowedNeverRevoked := false, hasUserCountsDisabled := false }
 
